@@ -240,22 +240,36 @@ def clause_normalize(R, S):
             pit(R, "C10-normalize", "normalize_tree leaf[0].re", "norm|re", lambda env: ev(tg[0][0], env), lambda env: env("sigma") / math.sqrt(env("leaf0.re")), "sigma / sqrt(leaf[0].re)", positive=("leaf0.re",))
             for nm, t in (("leaf[0].im", tg[0][1]), ("leaf[1].re", tg[1][0]), ("leaf[1].im", tg[1][1])):
                 R.check(t == 0.0, "C10-normalize", f"normalize_tree {nm}", "set to zero", f"{nm} is {t}", key=f"norm|{nm}")
-    # branch: both children, same sigma
-    calls = []
+    # branch: every leaf of a small tree is normalised with the same sigma, whether the function recurses or walks the tree
+    # with an explicit stack (recursive calls are followed three levels deep)
+    ctx.hooks["rec_depth"] = 4
 
-    def obs(ev_, **kw):
-        if ev_ == "enter" and not ctx.quiet and kw["callee"] is nt:
-            calls.append(kw["args"])
-    ctx.observers.append(obs)
+    def leafcell(st, tag):
+        v = Sq(cplx("e"), ctx.const_int(st, 2, usz), {0: cplx(tag + "0"), 1: cplx(tag + "1")})
+        return S.cell(st, tag, En({1: (v,)}), mut=True)
+
+    def box(p):
+        return Md("box", {"ptr": p})
     st = St()
-    l = S.cell(st, "left", En({1: (vec,)}), mut=True)
-    r = S.cell(st, "right", En({1: (vec,)}), mut=True)
-    S.cell(st, "tree", En({0: (poly(S, st, "ell", 2), Md("box", {"ptr": l}), Md("box", {"ptr": r}))}), mut=True)
+    la, lb_, lc = leafcell(st, "A"), leafcell(st, "B"), leafcell(st, "C")
+    inner = S.cell(st, "inner", En({0: (poly(S, st, "ell2", 2), box(la), box(lb_))}), mut=True)
+    S.cell(st, "tree", En({0: (poly(S, st, "ell", 4), box(inner), box(lc))}), mut=True)
     outs = S.run(nt, [Pt(("h", "tree"), (), True), Fl(1.0, 200.0, False, "sigma")], st)
-    ctx.observers.remove(obs)
-    tg = sorted((a[0].key[1] if type(a[0]) is Pt and a[0].key else "?", a[1].tag if type(a[1]) is Fl else None) for a in calls)
-    R.check(tg == [("left", "sigma"), ("right", "sigma")] and len(outs) >= 1, "C10-normalize", "normalize_tree (branch)", "recurses into both children with the unchanged sigma",
-            f"recursive calls: {tg}", key="norm|branch")
+    ctx.hooks.pop("rec_depth", None)
+    okb, whyb = len(outs) >= 1, f"{len(outs)} outcomes"
+    for _, s2 in outs:
+        for tag in ("A", "B", "C"):
+            v = s2.store.get(("h", tag))
+            try:
+                tg = coeff_tags(v.vs[1][0])
+                for t_ in range(3):
+                    env = Env(40 + t_, positive=(tag + "0.re",))
+                    if not close(ev(tg[0][0], env), env("sigma") / math.sqrt(env(tag + "0.re"))) or tg[0][1] != 0.0 or tg[1] != (0.0, 0.0):
+                        okb, whyb = False, f"leaf {tag} after the call is {tg}"
+            except (NotSymbolic, AttributeError, KeyError, TypeError, IndexError) as ex:
+                okb, whyb = False, f"leaf {tag} after the call: {v} ({ex})"
+    R.check(okb, "C10-normalize", "normalize_tree (tree of depth 3)", "all three leaves (two levels down and one level down) are normalised with the unchanged sigma",
+            whyb, key="norm|branch")
 
 
 def clause_from_b0(R, S0, rule="C10-from_b0"):
